@@ -70,6 +70,12 @@ def conflicting_variable_case(rng, lang):
             B, B2 = F(B, s, trip(b, var)), F(B2, s, trip(b, conc(b)))
         A = rng.choice((trip('S', var), F(trip('S', var), '\\', trip('NP', var))))
         C = trip('NP', conc('NP'))
+        if rng.random() < 0.25:
+            # two different variable triples that meet crosswise: A against B at one position, B against A at another
+            va, vb = ('X1', 'X2', 'f'), ('X1', 'X3', 'f')
+            s1 = rng.choice('/\\')
+            B, B2 = F(trip('S', va), s1, trip('S', vb)), F(trip('S', vb), s1, trip('S', va))
+            A = rng.choice((trip('S', va), trip('S', vb), F(trip('S', va), '\\', trip('S', vb))))
     row = rng.randrange(6)
     if row == 0:
         return F(A, '/', B), B2
